@@ -35,12 +35,14 @@ for i in sorted(os.listdir(outdir)):
         print((out_clean[-400:] if rc_clean else "") + (out_build[-400:] if rc_build else "") + (out_pkg[-600:] if rc_pkg else ""))
         continue
     # run the check on /repo with the patch applied
-    rc, o = sh("git -C /repo apply %s" % os.path.join(d, "patch.diff"))
+    scratch = os.environ.get("SEED_SCRATCH")  # run against the scratch worktree instead of /repo (when /repo is in use by a long run)
+    target = wt if scratch else "/repo"
+    rc, o = sh("git -C %s apply %s" % (target, os.path.join(d, "patch.diff")))
     assert rc == 0, o
     try:
-        rc_chk, out_chk = sh("./check %s --tier %s" % (prop, tier), "/verif", timeout=7200)
+        rc_chk, out_chk = sh("VERIF_REPO=%s ./check %s --tier %s" % (target, prop, tier), "/verif", timeout=7200)
     finally:
-        sh("git -C /repo checkout -- . && git -C /repo clean -fdq")
+        sh("git -C %s checkout -- . && git -C %s clean -fdq" % (target, target))
     viol = [l for l in out_chk.split("\n") if l.startswith("VIOLATION")]
     detail = []
     for v in viol:
@@ -62,7 +64,7 @@ for i in sorted(os.listdir(outdir)):
     meta["lead_confirmation"] = {
         "scratch_worktree": wt, "demo_command": demo,
         "ran": "demo on clean tree: pass; git apply: ok; go build ./... (with and without -tags verif): ok; demo with patch: FAIL (as intended); go test %s with patch: pass" % pkg,
-        "check": "./check %s --tier %s with the patch applied to /repo (git -C /repo apply), reverted afterwards" % (prop, tier),
+        "check": "./check %s --tier %s with the patch applied to %s (git apply), reverted afterwards" % (prop, tier, "a scratch worktree of /repo main given as VERIF_REPO" if scratch else "/repo"),
         "check_exit": rc_chk, "detected": detected, "violations": detail}
     json.dump(meta, open(os.path.join(sd, "meta.json"), "w"), indent=1)
 sh("rm -rf /verif/replays")
